@@ -574,7 +574,8 @@ class simplify_chained_calls(FuncADLNodeTransformer):
         found = None
         for index, value in enumerate(v.keys):
             assert isinstance(value, ast.Constant)
-            if type(value.value) is type(s) and value.value == s:
+            # Keys compare the way python compares them (1, True and 1.0 are one key).
+            if value.value == s:
                 found = v.values[index]
 
         return copy.deepcopy(found) if found is not None else None
